@@ -5,11 +5,13 @@ package main
 
 import (
 	"encoding/json"
+	"errors"
 	"fmt"
 	"os"
 	"sort"
 	"strconv"
 	"strings"
+	"syscall"
 	"time"
 
 	"verif/checks"
@@ -77,6 +79,32 @@ func replay(path string) {
 	if !ok {
 		fmt.Fprintln(os.Stderr, "unknown property", rp.Property)
 		os.Exit(2)
+	}
+	if ck.ReplayExe != "" {
+		self, _ := os.Executable()
+		if self != ck.ReplayExe {
+			// this case needs another build of the harness (scheduler / narrowed)
+			if err := syscall.Exec(ck.ReplayExe, []string{ck.ReplayExe, "replay", path}, os.Environ()); err != nil {
+				fmt.Fprintln(os.Stderr, "cannot exec", ck.ReplayExe, err)
+				os.Exit(2)
+			}
+		}
+	}
+	if ck.Replay != nil {
+		msg, err := ck.Replay(rp.Case)
+		if err == nil {
+			if msg != "" {
+				fmt.Printf("REPRODUCED property=%s %s\n", rp.Property, msg)
+				os.Exit(1)
+			}
+			fmt.Println("case passed")
+			return
+		}
+		if !errors.Is(err, checks.ErrUseWorker) {
+			fmt.Fprintln(os.Stderr, "replay:", err)
+			os.Exit(2)
+		}
+		// not a schedule case: replay through the worker, restricted to the case index
 	}
 	s := &explore.Shard{I: 0, N: 1, Only: cs.Index, Tier: rp.Tier}
 	ck.Worker(s)
